@@ -282,7 +282,7 @@ func genG14(repo string, w *Out) error {
 		w.DefStr(it.def, b)
 		pinned = append(pinned, it.def+": "+b)
 	}
-	w.DefStrList("pinned", pinned)
+
 
 	// values the model reads out of those bodies
 	b4, _, _ := g14Body(f4, "ProxyResolver.myIPAddress")
@@ -315,6 +315,13 @@ func genG14(repo string, w *Out) error {
 	if err != nil {
 		return err
 	}
+	// the helper library is evaluated before the script (standard: the script is loaded INTO the helper environment)
+	iLib, iScript := strings.Index(bn, ".vm.RunString(asciiPacUtilsScript)"), strings.Index(bn, ".config.Script)")
+	if iLib < 0 || iScript < 0 {
+		return fmt.Errorf("NewProxyResolver: evaluation of the helper library / of the script not found in %q", bn)
+	}
+	w.DefBool("library_before_script", iLib < iScript)
+	pinned = append(pinned, "go_NewProxyResolver: "+bn)
 	em := regexp.MustCompile(`(v\d+), (v\d+) := (v\d+)\.entryPoint\(\)`).FindStringSubmatch(bn)
 	if em == nil {
 		return fmt.Errorf("NewProxyResolver: the call of entryPoint was not found in %q", bn)
@@ -470,5 +477,6 @@ func genG14(repo string, w *Out) error {
 		}
 	}
 	w.DefStrList("mode_strings", mstr)
+	w.DefStrList("pinned", pinned)
 	return nil
 }
